@@ -207,6 +207,7 @@ impl Check for C12Check {
             Phase::exhaustive("strings", s * s + b * b + 25 + 16).with_chunk(128),
             Phase::exhaustive("cross-type", c * c).with_chunk(64),
             Phase::random("random", tier.pick(200_000, 2_000_000), 64).with_min_tape(16).with_chunk(1024),
+            Phase::exhaustive("size-sweep", (crate::model::pipeline::SIZE_SWEEP.len() * 2 * 7) as u64).with_chunk(8),
         ]
     }
     fn run(&self, _tier: Tier, phase: usize, input: &Input, ctx: &mut CaseCtx) {
@@ -247,6 +248,31 @@ impl Check for C12Check {
                 p.push(V::Float(f64::NEG_INFINITY));
                 let n = p.len() as u64;
                 self.judge(&p[(*i / n) as usize], &p[(*i % n) as usize], ctx);
+            }
+            (4, Input::Index(i)) => {
+                // long texts and byte lists: equal, differing in one position (first, middle, last; smaller or greater), a proper prefix, one longer
+                let n = crate::model::pipeline::SIZE_SWEEP[(*i / 14) as usize];
+                let bytes = (*i / 7) % 2 == 1;
+                let variant = *i % 7;
+                let cycle = ['m', 'é', '漢', 'n'];
+                let base: Vec<char> = (0..n).map(|k| cycle[k % 4]).collect();
+                let mut other = base.clone();
+                match variant {
+                    0 => {}
+                    1 => other[n - 1] = 'a',
+                    2 => other[n - 1] = 'z',
+                    3 => other[0] = 'a',
+                    4 => other[n / 2] = 'z',
+                    5 => other.truncate(n - 1),
+                    _ => other.push('m'),
+                }
+                ctx.class("size-sweep");
+                if bytes {
+                    let f = |v: &Vec<char>| V::Bytes(v.iter().map(|c| (*c as u32 % 251) as u8).collect());
+                    self.judge(&f(&base), &f(&other), ctx);
+                } else {
+                    self.judge(&V::Text(base), &V::Text(other), ctx);
+                }
             }
             (3, Input::Tape(t)) => {
                 let mut t = Tape::new(t);
